@@ -35,6 +35,7 @@ CONSTANTS
     MaxPos,           \* calls: 0..MaxPos positional arguments
     MaxKw,            \* calls: at most MaxKw keyword arguments
     BugRuntimeIgnoresKwDefaults,  \* sensitivity switch: a plausible bug in the runtime route
+    BugStringDropsAllowUnpack,    \* sensitivity switch: an annotation that arrives as a string is evaluated without allow_unpack
     FixedDunder       \* FALSE = current code, TRUE = after /verif/proposed/C13-fix-4.diff (see Annotations.tla)
 
 NoAnn == X("noann", "", << >>)
@@ -45,6 +46,15 @@ AnnExpr(c) ==
       [] c = "TE" -> Nm("TimeoutError")
       [] c = "OptInt" -> Sub("Optional", <<Nm("int")>>)
       [] c = "ListInt" -> Sub("list", <<Nm("int")>>)
+      \* annotations of *args / **kwargs (DefVarargs.tla): PEP 646 / PEP 692 forms, as written and quoted
+      [] c = "Qint" -> Quote(Nm("int"))
+      [] c = "UnpTupIS" -> Sub("Unpack", <<Sub("tuple", <<Nm("int"), Nm("str")>>)>>)
+      [] c = "QUnpTupIS" -> Quote(Sub("Unpack", <<Sub("tuple", <<Nm("int"), Nm("str")>>)>>))
+      [] c = "UnpTupEll" -> Sub("Unpack", <<Sub("tuple", <<Nm("int"), Ell>>)>>)
+      [] c = "QUnpTupEll" -> Quote(Sub("Unpack", <<Sub("tuple", <<Nm("int"), Ell>>)>>))
+      [] c = "StarTupIS" -> Star(Sub("tuple", <<Nm("int"), Nm("str")>>))             \* `*args: *tuple[int, str]` (3.11 syntax)
+      [] c = "UnpTDN" -> Sub("Unpack", <<Nm("TDN")>>)
+      [] c = "QUnpTDN" -> Quote(Sub("Unpack", <<Nm("TDN")>>))
       [] c = "IterInt" -> Sub("Iterator", <<Nm("int")>>)          \* return annotations of (async) generators
       [] c = "AIterInt" -> Sub("AsyncIterator", <<Nm("int")>>)
       [] OTHER -> Nm(c)                     \* int, str, T, None
@@ -67,10 +77,42 @@ RefInspect(h) == [i \in 1..Len(h.params) |->
 (* Impl, def route                                                         *)
 (***************************************************************************)
 \* functions.py:344 translate_vararg_type (no Unpack / ParamSpec in this vocabulary)
+\* (:355-364 / :370-379: Unpack[X] on *args / **kwargs is X itself if X is a tuple / a dict type)
 ImplTranslateVararg(kind, v) ==
-    CASE kind = "VAR_POSITIONAL" -> Mk("Generic", "tuple", <<v>>)
+    CASE kind = "VAR_POSITIONAL" /\ v.t = "Unpacked" ->
+            IF v.a[1].n = "tuple" /\ v.a[1].t \in {"Seq", "Generic", "Typed"} THEN v.a[1] ELSE AnyV("error")
+      [] kind = "VAR_KEYWORD" /\ v.t = "Unpacked" ->
+            IF v.a[1].t = "TypedDict" \/ (v.a[1].n = "dict" /\ v.a[1].t \in {"Generic", "Typed"}) THEN v.a[1] ELSE AnyV("error")
+      [] kind = "VAR_POSITIONAL" -> Mk("Generic", "tuple", <<v>>)
       [] kind = "VAR_KEYWORD" -> Mk("Generic", "dict", <<TypedV("str"), v>>)
       [] OTHER -> v
+
+\* The annotation object / string handed to _type_from_runtime at the TOP level of a parameter annotation
+\* (annotations.py:406-412: the str branch forwards allow_unpack to _eval_forward_ref)
+ImplRtTop(obj, au) == ImplRt(obj, IF BugStringDropsAllowUnpack /\ obj.k = "strobj" THEN FALSE ELSE au)
+\* `*args: *tuple[int, str]` -- the annotation is an ast.Starred node, not an expression: the checker's visitor
+\* evaluates it to no type (Any[error]); as the text "*tuple[int, str]" (PEP 563) it is a SyntaxError for
+\* _eval_forward_ref (annotations.py:676-681 -> Any[error])
+TopStar(ann) == ann.k = "star"
+
+\* signature.py:1857-1895 Signature.make: a *args whose type is a tuple of fixed length becomes positional-only
+\* parameters @i, a **kwargs whose type is a TypedDict becomes keyword-only parameters (NotRequired = has a default)
+ImplTypedDictParams(items) ==
+    CASE items = "p:int:required,q:str:optional" ->
+            <<ParamV("p", "KEYWORD_ONLY", NoDefault, TypedV("int")), ParamV("q", "KEYWORD_ONLY", AnyV("marker"), TypedV("str"))>>
+      [] items = "a:int:required,b:str:required" ->
+            <<ParamV("a", "KEYWORD_ONLY", NoDefault, TypedV("int")), ParamV("b", "KEYWORD_ONLY", NoDefault, TypedV("str"))>>
+RECURSIVE ImplExpandParams(_, _)
+ImplExpandParams(ps, i) ==
+    IF ps = << >> THEN << >>
+    ELSE LET q == Head(ps)
+         IN IF q.t # "Param" THEN <<q>> \o ImplExpandParams(Tail(ps), i + 1)
+            ELSE IF q.a[1].n = "VAR_POSITIONAL" /\ q.a[3].t = "Seq" /\ \A j \in 1..Len(q.a[3].a) : q.a[3].a[j].t = "one"
+            THEN [j \in 1..Len(q.a[3].a) |-> ParamV("@" \o ToString(i + j - 1), "POSITIONAL_ONLY", NoDefault, q.a[3].a[j].a[1])]
+                 \o ImplExpandParams(Tail(ps), i + Len(q.a[3].a))
+            ELSE IF q.a[1].n = "VAR_KEYWORD" /\ q.a[3].t = "TypedDict"
+            THEN ImplTypedDictParams(q.a[3].n) \o ImplExpandParams(Tail(ps), i + 2)
+            ELSE <<q>> \o ImplExpandParams(Tail(ps), i + 1)
 
 \* value.py:3389 make_coro_type
 ImplCoro(v) == Mk("Generic", "Coroutine", <<AnyV("inference"), AnyV("inference"), v>>)
@@ -95,18 +137,31 @@ ImplRtKind(h, i) ==
 ImplDefParam(p) ==
     LET dflt == ImplDefDefault(p.dflt)
         value == IF p.ann # NoAnn
-                 THEN ImplAstAnnotation(p.ann, IsVar(p.kind))                           \* functions.py:266
+                 THEN (IF TopStar(p.ann) THEN AnyV("error")
+                       ELSE ImplRtTop(ImplVisitorEval(p.ann), IsVar(p.kind)))           \* functions.py:266 (= ImplAstAnnotation)
                  ELSE IF dflt = NoDefault THEN AnyV("unannotated")                       \* :302
                  ELSE Unite(<<AnyV("unannotated"), dflt>>)                               \* :304
     IN ParamV(p.name, p.kind, dflt, ImplTranslateVararg(p.kind, value))                  \* :306, :340
+
+\* signature.py:592 Signature.validate (called by the constructor): a positional-only parameter may only follow
+\* positional-only parameters -- which the expansion of a fixed-length *args behind a positional-or-keyword parameter
+\* violates: InvalidSignature is raised
+ImplSigInvalid(sig) ==
+    sig.t = "Sig" /\ \E k \in 1..(Len(sig.a) - 1) :
+        /\ sig.a[k].t = "Param" /\ sig.a[k].a[1].n = "POSITIONAL_ONLY"
+        /\ \E k2 \in 1..(k - 1) : sig.a[k2].t = "Param" /\ sig.a[k2].a[1].n # "POSITIONAL_ONLY"
+\* the exception escapes the visit of the def statement (internal_error; the name stays undefined, a use is Any[error])
+\* resp. get_signature
+ImplSigDefChecked(sig) == IF ImplSigInvalid(sig) THEN AnyV("error") ELSE sig
+ImplSigRtChecked(sig) == IF ImplSigInvalid(sig) THEN V("Raised", "InvalidSignature", << >>) ELSE sig
 
 ImplSigDef(h) ==
     LET ret0 == IF h.ret = NoAnn THEN AnyV("unannotated") ELSE ImplAstAnnotation(h.ret, FALSE)   \* name_check_visitor.py:1942
         ret == IF h.isasync THEN ImplCoro(ret0) ELSE ret0                                         \* functions.py:425-432
         \* (C13-fix-4) the same positional-only convention in compute_parameters
         kindOf(i) == IF FixedDunder THEN ImplRtKind(h, i) ELSE h.params[i].kind
-    IN SigV([i \in 1..Len(h.params) |-> LET q == ImplDefParam(h.params[i])
-                                          IN IF q.t = "Param" THEN ParamV(q.n, kindOf(i), q.a[2], q.a[3]) ELSE q], ret)
+    IN ImplSigDefChecked(SigV(ImplExpandParams([i \in 1..Len(h.params) |-> LET q == ImplDefParam(h.params[i])
+                                          IN IF q.t = "Param" THEN ParamV(q.n, kindOf(i), q.a[2], q.a[3]) ELSE q], 0), ret))
 
 (***************************************************************************)
 (* Impl, runtime route                                                     *)
@@ -118,7 +173,8 @@ ImplAnnObject(h, ann) == IF h.future THEN X("strobj", "", <<ImplSigNames(ann, TR
 \* arg_spec.py:508 _get_type_for_parameter
 ImplRtParamType(h, p) ==
     IF p.ann # NoAnn
-    THEN ImplTranslateVararg(p.kind, ImplRt(ImplAnnObject(h, p.ann), IsVar(p.kind)))     \* :515-520
+    THEN ImplTranslateVararg(p.kind, IF h.future /\ TopStar(p.ann) THEN AnyV("error")
+                                     ELSE ImplRtTop(ImplAnnObject(h, p.ann), IsVar(p.kind)))   \* :515-520
     ELSE AnyV("unannotated")                                                             \* :574 (no self, no varname value)
 
 ImplRtDefault(p) ==
@@ -131,9 +187,9 @@ ImplSigRt(h) ==
     LET ret0 == IF h.ret = NoAnn THEN AnyV("unannotated")                                \* :424
                 ELSE ImplRt(ImplAnnObject(h, h.ret), FALSE)                              \* :428
         ret == IF h.isasync THEN ImplCoro(ret0) ELSE ret0                                \* :432
-    IN SigV([i \in 1..Len(h.params) |->
-                ParamV(h.params[i].name, ImplRtKind(h, i), ImplRtDefault(h.params[i]), ImplRtParamType(h, h.params[i]))],
-            ret)
+    IN ImplSigRtChecked(SigV(ImplExpandParams([i \in 1..Len(h.params) |->
+                ParamV(h.params[i].name, ImplRtKind(h, i), ImplRtDefault(h.params[i]), ImplRtParamType(h, h.params[i]))], 0),
+            ret))
 
 (***************************************************************************)
 (* Ref: when are two Signatures "the same parameters up to representation" *)
@@ -219,10 +275,14 @@ Dev_EllipsisCall(h, npos, kws) ==
 BlankHeader == [params |-> << >>, ret |-> NoAnn, isasync |-> FALSE, future |-> FALSE]
 HInit == stk = << >> /\ nodes = 0 /\ stage = "params" /\ case = BlankHeader
 
+StripQuote(e) == IF e.k = "str" THEN e.args[1] ELSE e
+IsUnpackTuple(e) == TopStar(e) \/ (StripQuote(e).k = "sub" /\ StripQuote(e).id = "Unpack" /\ StripQuote(e).args[1].k = "sub")
+IsUnpackDict(e) == StripQuote(e).k = "sub" /\ StripQuote(e).id = "Unpack" /\ StripQuote(e).args[1].k = "name"
 ParamOK(ps, p) ==
     LET n == Len(ps)
         r == Rank(p.kind)
-    IN /\ (n > 0 => (Rank(ps[n].kind) <= r /\ ps[n].kind # "VAR_KEYWORD"))
+    IN /\ (IsUnpackTuple(p.ann) => p.kind = "VAR_POSITIONAL") /\ (IsUnpackDict(p.ann) => p.kind = "VAR_KEYWORD")
+       /\ (n > 0 => (Rank(ps[n].kind) <= r /\ ps[n].kind # "VAR_KEYWORD"))
        /\ (IsVar(p.kind) => (p.dflt = "none" /\ (n > 0 => ps[n].kind # p.kind)))
        \* a positional parameter without default may not follow one with a default
        /\ ((r <= 2 /\ p.dflt = "none") => \A i \in 1..n : ps[i].dflt = "none")
